@@ -326,7 +326,7 @@ def act(it, name, a):
         raise ValueError("unknown op " + name)
 
 
-def drive(w, it, alpha, steps, t, after=None, site=None):
+def drive(w, it, alpha, steps, t, after=None, site=None, newest_first=False):
     """steps: [(x, a), ...].  Step 0 is followed by ticks(t) (early placement of step 1), every other
     step by settle().  If `site` is given, step 1 is *embedded*: armed to run inside the next
     harness-owned user-code site of that kind instead of at the iteration boundary.
@@ -346,7 +346,7 @@ def drive(w, it, alpha, steps, t, after=None, site=None):
             raise Excluded(w.excluded)
         if after is not None and k > 0:
             after()
-    w.drain()
+    w.drain(newest_first=newest_first)
     if w.excluded:
         raise Excluded(w.excluded)
     if after is not None:
